@@ -51,8 +51,9 @@ func main() {
 		QuickBounds:    []B{{0, 0}, {1, 1}, {2, 1}},
 		ThoroughBounds: []B{{0, 0}, {1, 1}, {2, 1}, {2, 2}, {3, 2}},
 		PerScenario: map[string]map[string][]B{
-			"tp-overflow":    {"quick": {{0, 0}, {1, 0}, {1, 1}}, "thorough": {{0, 0}, {1, 1}, {2, 1}, {2, 2}}},
-			"tp-2keys-3prod": {"quick": {{0, 0}, {1, 0}, {2, 0}}, "thorough": {{0, 0}, {2, 0}, {1, 1}, {2, 1}}},
+			"tp-overflow":      {"quick": {{0, 0}, {1, 0}, {1, 1}}, "thorough": {{0, 0}, {1, 1}, {2, 1}, {2, 2}}},
+			"tp-deep-overflow": {"quick": {{0, 0}, {1, 0}, {1, 1}}, "thorough": {{0, 0}, {1, 1}, {2, 1}}},
+			"tp-2keys-3prod":   {"quick": {{0, 0}, {1, 0}, {2, 0}}, "thorough": {{0, 0}, {2, 0}, {1, 1}, {2, 1}}},
 
 			// quick keeps the bounds below complete within its budget on an idle 16-core box (single-process sizes in
 			// executions next to the top quick bound); the wider levels live in thorough.
